@@ -428,6 +428,20 @@ func c15RunTransport(c *c15Case) (res c15Run) {
 			if over && code == 0 {
 				res.fail("oversize_refused", "op %d: a write of %d bytes onto %d buffered bytes exceeds MaxLength %d but was accepted", idx, len(payload), len(acc[0]), c15Max)
 			}
+			// ... and only such a write: a message of at most MaxLength bytes is
+			// "the bytes written since the previous Flush" and must go out complete,
+			// so none of its writes may be refused
+			clean := n > 0
+			for d := 0; d < n; d++ {
+				clean = clean && !refused[d]
+			}
+			if !over && clean && code != 0 {
+				call := map[string]string{"w": "Write", "ws": "WriteString", "wb": "WriteByte"}[o.Op]
+				if c.Multi {
+					call = "Write"
+				}
+				res.fail("fitting_write_accepted", "op %d: %s of %d byte(s) after %d accepted byte(s) was refused (code %d) although the message then has %d bytes <= MaxLength %d and no earlier write of this message had been refused", idx, call, len(payload), len(acc[0]), code, len(acc[0])+len(payload), c15Max)
+			}
 			if code == 0 {
 				for d := range acc {
 					acc[d] = append(acc[d], payload...)
@@ -959,6 +973,44 @@ func c15DownEpisode(r *Rng, d int, rich bool) []c15Op {
 	return ops
 }
 
+func c15TailByteCases(restricted bool) []c15Case {
+	var out []c15Case
+	i := 0
+	for total := c15Max - 2; total <= c15Max+1; total++ {
+		for tail := 1; tail <= 3; tail++ {
+			i++
+			if restricted && total > c15Max {
+				continue // the pinned tree and the property part ways at the Flush after a refused write
+			}
+			var ops []c15Op
+			if i%3 == 0 && !restricted { // an earlier message that is refused, ended by Flush
+				ops = append(ops, c15Op{Op: "w", N: 40000}, c15Op{Op: "ws", N: 40000}, c15Op{Op: "flush"})
+			}
+			rest := total - tail
+			switch i % 4 {
+			case 0:
+				ops = append(ops, c15Op{Op: "w", N: rest})
+			case 1:
+				ops = append(ops, c15Op{Op: "ws", N: rest})
+			case 2:
+				ops = append(ops, c15Op{Op: "w", N: 30000}, c15Op{Op: "ws", N: rest - 30000})
+			default:
+				ops = append(ops, c15Op{Op: "wb"}, c15Op{Op: "w", N: rest - 1})
+			}
+			for k := 0; k < tail; k++ {
+				ops = append(ops, c15Op{Op: "wb"})
+			}
+			ops = append(ops, c15Op{Op: "flush"}, c15Op{Op: "wb"}, c15Op{Op: "flush"})
+			c := c15Case{Kind: "transport", Dests: 1, Ops: ops}
+			if i%6 == 5 { // through the multi transport a single byte is a 1-byte Write
+				c.Multi, c.Dests = true, 2
+			}
+			out = append(out, c)
+		}
+	}
+	return out
+}
+
 // the fixed part of the "destination down" stream: the collector restarts
 // while messages are being flushed (cf. the property: "leaves the buffer empty
 // whether or not the send succeeded", "after any failed or abandoned message
@@ -1212,6 +1264,15 @@ func init() {
 			if slow {
 				continue // the slow inputs are built in and run next to the main stream; the stored ones are for --replay
 			}
+			one(&c, false)
+		}
+		// messages around the limit whose last bytes are written one by one
+		// ("A write that would make the message exceed the maximum datagram length
+		// is refused" - and no other): totals MaxLength-2 .. MaxLength+1, the final
+		// 1..3 bytes by WriteByte after Write / WriteString of the rest, as the first
+		// message and after a refused message that was ended by Flush
+		for _, c := range c15TailByteCases(restricted) {
+			c := c
 			one(&c, false)
 		}
 		// "destination down" stream, fixed part (the random part is in c15Gen)
